@@ -107,8 +107,19 @@ COMMITTED = [
 
 def committed_script(rng):
     s, v = rng.choice(COMMITTED)
-    if rng.random() < 0.3:
+    r = rng.random()
+    if r < 0.3:
         s = isa.push(rbytes(rng, rng.choice((1, 30, 200)))) + O('POP0') + s
+    elif r < 0.45:
+        # a committed script of EXACTLY the length of a digest / a key / a
+        # signature / a size-field boundary (harmless fillers in front)
+        want = rng.choice((32, 33, 64, 65, 127, 128, 255, 256, 256, 257, 300))
+        gap = want - len(s)
+        if gap >= 2:
+            three = gap % 2
+            s = (O('TRUE') + O('POP0')) * ((gap - 3 * three) // 2) \
+                + (isa.push(b'\x09') + O('POP0')) * three + s
+            assert len(s) == want
     return s, v
 
 
